@@ -17,6 +17,17 @@ pub trait Sc: NumCast + Copy + std::fmt::Debug + Bits + PartialEq + 'static {
 
 fn int_candidates() -> Vec<i128> {
     let mut v: Vec<i128> = vec![0, 1, -1, 2, -2, 3, 7, 100, -100];
+    // values whose conversion to f32 differs when it goes through f64 first (double rounding),
+    // and values just above 2^53 that f64 cannot hold
+    for k in [54u32, 57, 60, 62] {
+        let x = (1i128 << k) + (1i128 << (k - 24)) + 1;
+        v.push(x);
+        v.push(-x);
+        v.push((1i128 << k) + (1i128 << (k - 24)) - 1);
+    }
+    v.push((1i128 << 53) + 1);
+    v.push(-((1i128 << 53) + 1));
+    v.push((1i128 << 24) + 1);
     for k in [7u32, 8, 15, 16, 24, 31, 32, 53, 63, 64] {
         let p = 1i128 << k;
         for d in [-2i128, -1, 0, 1, 2] {
